@@ -78,6 +78,11 @@ class P:
                     open_cases += [G.pcase(src, aliases=tb) for tb in rnd.sample(tables, 2)]
                 else:
                     open_cases += [G.pcase(src, aliases=tb) for tb in tables]
+        # here-documents inside substitutions inside alias values (the lexer prints body lines to find the delimiter)
+        for v_ in ["cat <<E\n`cat <<F\nF\n`\nE\n", "(( $(cat <<E\nx\nE\n) +", "echo $(( `cat <<E\nx\nE\n` +", "cat <<E\n$(( $(cat <<F\nx\nF\n) +",
+                   "cat <<E\n$(cat <<F\nf\nF\n) `cat <<G\nG\n`\nE\n", "cat <<E\n${x:-$(cat <<F\nf\nF\n)}", "echo \"$(cat <<E\n$((1 +"]:
+            for s_ in ["a", "a\n", "a\n1 ))\n", "a\n1 ))\nE\n", "a\n2))\"\nE\n", "{ a\n}", "a\nE\n", "a\n}\nE\n"]:
+                open_cases.append(G.pcase(s_, aliases={"a": v_}))
         env0 = dict(os.environ, GODEBUG="panicnil=0")
         env1 = dict(os.environ, GODEBUG="panicnil=1")
         nt = lambda c: len(unhx(c.split("\t")[0])) >= 2
